@@ -8,6 +8,9 @@ package main
 //   c19 trace  : seeded random formulas of 10-30 tokens (plus damaged copies) evaluated under random
 //                bindings, and every formula in all variants constant <-> bound variable; recorded
 //                for MathExpr_Trace (B2)
+//   c19 lex    : the lexical layer - TLC-enumerated byte strings (MathExprLex_Gen) replayed (B1), see lex.go;
+//                `c19 trace -lex N` appends N byte-damaged random formulas to the trace (B2)
+//   c19 bind   : the binding of a compiled formula to match data (numbers / no numbers, <BAD-TYPE>), see bind.go
 //   c19 eval   : one formula (debugging)
 
 import (
@@ -29,7 +32,7 @@ import (
 )
 
 func main() {
-	vh.Main(vh.Commands{"replay": c19Replay, "trace": c19Trace, "eval": c19Eval, "fold": c19Fold})
+	vh.Main(vh.Commands{"replay": c19Replay, "trace": c19Trace, "eval": c19Eval, "fold": c19Fold, "lex": c19Lex, "bind": c19Bind})
 }
 
 type M = vh.M
@@ -164,6 +167,38 @@ func compileKBT(template string) compiled {
 			if again := kb.BuildKey(ctx); again != out {
 				return outcome{C: "panic", m: fmt.Sprintf("second evaluation differs: %q then %q", out, again)}
 			}
+			v, perr := strconv.ParseFloat(out, 64)
+			if perr != nil {
+				return outcome{C: "text", m: out, X: out}
+			}
+			o := classify(v)
+			o.X = out
+			return o
+		})
+	}
+}
+
+// compileKBTexts: a `{! ..}` template compiled once; the result evaluates it on match data given as texts
+// (texts[i] is both match i and the key x, y, z, ...; any text, numeric or not)
+func compileKBTexts(template string) func(texts []string) outcome {
+	var kb *expressions.CompiledKeyBuilder
+	if o := guard(func() outcome {
+		k, err := kbuilder.Compile(template)
+		if err != nil {
+			return outcome{C: "err", m: err.Error()}
+		}
+		kb = k
+		return outcome{}
+	}); o.C != "" {
+		return func([]string) outcome { return o }
+	}
+	return func(texts []string) outcome {
+		return guard(func() outcome {
+			ctx := &expressions.KeyBuilderContextArray{Elements: append([]string{}, texts...), Keys: map[string]string{"src": "a.log", "line": "7"}}
+			for i, s := range texts {
+				ctx.Keys[varNames[i]] = s
+			}
+			out := kb.BuildKey(ctx)
 			v, perr := strconv.ParseFloat(out, 64)
 			if perr != nil {
 				return outcome{C: "text", m: out, X: out}
@@ -488,6 +523,7 @@ func c19Trace(args []string) error {
 	fs := flag.NewFlagSet("trace", flag.ExitOnError)
 	out := fs.String("out", "", "trace (ndjson)")
 	n := fs.Int("n", 1000, "random formulas")
+	nlex := fs.Int("lex", 0, "byte-damaged random formulas (records for the lexical layer, see lex.go)")
 	fs.Parse(args)
 	w, err := vh.NewNdWriter(*out)
 	if err != nil {
@@ -495,7 +531,7 @@ func c19Trace(args []string) error {
 	}
 	defer w.Close()
 	r := vh.NewRand(19)
-	vals, laws, evals := 0, 0, 0
+	vals, laws, evals, binds := 0, 0, 0, 0
 	for i := 0; i < *n; i++ {
 		// ---- a formula of 10-30 tokens inside the value model
 		nvars := 1 + r.Intn(4)
@@ -542,6 +578,41 @@ func c19Trace(args []string) error {
 		evals++
 		w.Write(M{"k": "val", "toks": use, "bind": jb, "eng": eng.name, "text": text, "got": o})
 		vals++
+
+		// ---- the same formula on match data where some variables read no number (MathExprBind): compiled once,
+		// evaluated on the numeric row, on the row with holes, and on the numeric row again
+		if i%4 == 1 {
+			var badv []int
+			for j := 1; j <= nvars; j++ {
+				if r.Intn(3) == 0 {
+					badv = append(badv, j)
+				}
+			}
+			if len(badv) == 0 {
+				badv = []int{1 + r.Intn(nvars)}
+			}
+			texts := make([]string, 8)
+			holes := make([]string, 8)
+			for j := range texts {
+				texts[j] = fmtG(fb[j])
+				holes[j] = texts[j]
+			}
+			for _, j := range badv {
+				holes[j-1] = notNumbers[r.Intn(len(notNumbers))]
+			}
+			beng := "kb"
+			tmpl := "{! \"" + render(toks, true) + "\"}"
+			if i%8 == 5 {
+				beng, tmpl = "kbbare", "{! "+render(toks, true)+"}"
+			}
+			ev := compileKBTexts(tmpl)
+			first, withHoles, again := ev(texts), ev(holes), ev(texts)
+			evals += 3
+			w.Write(M{"k": "bind", "toks": toks, "bind": jb, "badv": []int{}, "eng": beng, "text": tmpl, "got": first})
+			w.Write(M{"k": "bind", "toks": toks, "bind": jb, "badv": badv, "eng": beng, "text": tmpl, "got": withHoles})
+			w.Write(M{"k": "bind", "toks": toks, "bind": jb, "badv": []int{}, "eng": beng, "text": tmpl, "got": again})
+			binds += 3
+		}
 
 		// ---- constant <-> bound variable: all 2^k variants of a formula (functions of every kind)
 		if i%2 == 0 {
@@ -619,7 +690,9 @@ func c19Trace(args []string) error {
 			laws++
 		}
 	}
-	fmt.Println(string(mustJSON(M{"val": vals, "law": laws, "evaluations": evals})))
+	lexRecs, lexEvals := lexRecords(w, vh.NewRand(1905), *nlex)
+	evals += lexEvals
+	fmt.Println(string(mustJSON(M{"val": vals, "law": laws, "lex": lexRecs, "bind": binds, "evaluations": evals})))
 	return nil
 }
 
